@@ -230,3 +230,34 @@ package lalr
 //@   ensures forall k in 0..old(len(a.table)) :: a.table[k] == old(a.table[k]) && a.check[k] == old(a.check[k])
 //@   ensures forall k in old(len(a.table))..len(a.table) :: a.table[k] == 0 && a.check[k] == 0
 //@   ensures (fresh(a.table) || samearray(a.table, old(a.table))) && (fresh(a.check) || samearray(a.check, old(a.check)))
+
+// ---- nullable nonterminals (C01, C03): the least set closed under "every non-marker symbol of some rule is empty" ----
+
+// ruleEmpty(c, r): every symbol on the right-hand side of rule r is a state marker or marked empty
+//@ pred ruleEmpty(c *compiler, r int) = forall k in 0..len(c.grammar.Rules[r].RHS) :: c.grammar.Rules[r].RHS[k] < 0 || bit(c.empty, c.grammar.Rules[r].RHS[k])
+//@ pred symsInRange(c *compiler) = forall r in 0..len(c.grammar.Rules) :: 0 <= c.grammar.Rules[r].LHS && c.grammar.Rules[r].LHS < 32*len(c.empty) && forall k in 0..len(c.grammar.Rules[r].RHS) :: c.grammar.Rules[r].RHS[k] < 32*len(c.empty)
+
+//@ func Sym.IsStateMarker
+//@   ensures result <==> s < 0
+
+// computeEmpty: on return the set is closed (a rule whose non-marker symbols are all empty has an
+// empty left-hand side), nothing was removed, and every added symbol is supported by such a rule.
+// (Partial correctness: termination of the outer loop is not proved.)
+//@ func compiler.computeEmpty
+//@   option slice-wf
+//@   requires c.grammar != nil && symsInRange(c)
+//@   modifies c.empty[0:len(c.empty)]
+//@   ensures forall r in 0..len(c.grammar.Rules) :: ruleEmpty(c, r) ==> bit(c.empty, c.grammar.Rules[r].LHS)
+//@   ensures forall k in 0..32*len(c.empty) :: old(bit(c.empty, k)) ==> bit(c.empty, k)
+//@   ensures forall k in 0..32*len(c.empty) :: bit(c.empty, k) ==> old(bit(c.empty, k)) || exists r in 0..len(c.grammar.Rules) :: c.grammar.Rules[r].LHS == k && ruleEmpty(c, r)
+//@   loop 1:
+//@     invariant forall k in 0..32*len(c.empty) :: old(bit(c.empty, k)) ==> bit(c.empty, k)
+//@     invariant forall k in 0..32*len(c.empty) :: bit(c.empty, k) ==> old(bit(c.empty, k)) || exists r in 0..len(c.grammar.Rules) :: c.grammar.Rules[r].LHS == k && ruleEmpty(c, r)
+//@   loop 2:
+//@     invariant 0 <= @i && @i <= len(c.grammar.Rules)
+//@     invariant forall k in 0..32*len(c.empty) :: old(bit(c.empty, k)) ==> bit(c.empty, k)
+//@     invariant forall k in 0..32*len(c.empty) :: bit(c.empty, k) ==> old(bit(c.empty, k)) || exists r in 0..len(c.grammar.Rules) :: c.grammar.Rules[r].LHS == k && ruleEmpty(c, r)
+//@     invariant !keepGoing ==> forall r in 0..@i :: ruleEmpty(c, r) ==> bit(c.empty, c.grammar.Rules[r].LHS)
+//@   loop 3:
+//@     invariant 0 <= @i && @i <= len(r.RHS) && @i2 < len(c.grammar.Rules) && sameslice(r.RHS, c.grammar.Rules[@i2].RHS) && r.LHS == c.grammar.Rules[@i2].LHS && empty
+//@     invariant forall k in 0..@i :: r.RHS[k] < 0 || bit(c.empty, r.RHS[k])
